@@ -533,6 +533,97 @@ theorem insertSpecB_iff [DecidableEq α] (cs : List α) (v : α) (res : List α)
 
 end Set
 
+/-! ## Redefinition and lookup together -/
+
+private theorem allZip_paramMatch_congr (ps qs : List Param) (gs : List Param)
+    (h : ps.map (·.simp) = qs.map (·.simp)) : allZip paramMatch ps gs = allZip paramMatch qs gs := by
+  induction ps generalizing qs gs with
+  | nil => cases qs with
+    | nil => rfl
+    | cons q qs => simp at h
+  | cons p ps ih =>
+    cases qs with
+    | nil => simp at h
+    | cons q qs =>
+      simp only [List.map_cons, List.cons.injEq] at h
+      cases gs with
+      | nil => simp [allZip]
+      | cons g gs =>
+        simp only [allZip, ih qs gs h.2]
+        congr 1
+        simp [paramMatch, h.1]
+
+private theorem gateLoop_map (g : Gate) (u : Cal → Cal) (cs : List Cal) (i : Nat) (acc : Option (Nat × Nat))
+    (h : ∀ c ∈ cs, matchesB (u c) g = matchesB c g ∧ fixedCount (u c) = fixedCount c) :
+    gateLoop g (cs.map u) i acc = gateLoop g cs i acc := by
+  induction cs generalizing i acc with
+  | nil => rfl
+  | cons c cs ih =>
+    have hc := h c (by simp)
+    simp only [List.map_cons, gateLoop, hc.1]
+    have e : gateStep acc i (u c) = gateStep acc i c := by
+      cases acc with
+      | none => simp [gateStep, hc.2]
+      | some a => obtain ⟨j, k⟩ := a; simp [gateStep, hc.2]
+    rw [e, ih _ _ (fun d hd => h d (by simp [hd])), ih _ _ (fun d hd => h d (by simp [hd]))]
+
+/-- **C16 (redefinition does not disturb precedence)**: redefining a calibration whose signature is already
+in the set leaves every gate lookup at the same position.  `hf`: the simplified class of a parameter is a
+function of its raw class (simplification is deterministic). -/
+theorem lookup_stable_under_redefinition (cs : List Cal) (v : Cal) (g : Gate)
+    (hnd : NoDupSig Cal.sig cs) (hex : ∃ c ∈ cs, Cal.sig c = Cal.sig v)
+    (f : Nat → SimpClass) (hf : ∀ c ∈ v :: cs, ∀ p ∈ c.params, p.simp = f p.raw) :
+    getMatchForGate (replace Cal.sig cs v).1 g = getMatchForGate cs g := by
+  rw [replace_eq_map Cal.sig cs v hnd hex]
+  unfold getMatchForGate
+  rw [gateLoop_map]
+  intro c hc
+  unfold upd
+  by_cases hs : Cal.sig c = Cal.sig v
+  · simp only [hs, if_true]
+    simp only [Cal.sig, Prod.mk.injEq] at hs
+    obtain ⟨hm, hn, hp, hq⟩ := hs
+    have hsimp : ∀ d ∈ v :: cs, d.params.map (·.simp) = (d.params.map (·.raw)).map f := by
+      intro d hd
+      rw [List.map_map]
+      apply List.map_congr_left
+      intro p hp; exact hf d hd p hp
+    have hps : v.params.map (·.simp) = c.params.map (·.simp) := by
+      rw [hsimp v (by simp), hsimp c (by simp [hc]), hp]
+    have hlen : v.params.length = c.params.length := by
+      have := congrArg List.length hp; simpa using this.symm
+    refine ⟨?_, by simp [fixedCount, hq]⟩
+    unfold matchesB
+    rw [hm, hn, hq, hlen, allZip_paramMatch_congr _ _ _ hps]
+  · simp [hs]
+
+/-- the same for measurement calibrations (no assumption needed: lookup only reads the signature) -/
+theorem meas_lookup_stable_under_redefinition (cs : List MCal) (v : MCal) (m : Meas)
+    (hnd : NoDupSig MCal.sig cs) (hex : ∃ c ∈ cs, MCal.sig c = MCal.sig v) :
+    getMatchForMeasurement (replace MCal.sig cs v).1 m = getMatchForMeasurement cs m := by
+  rw [replace_eq_map MCal.sig cs v hnd hex]
+  have hcl : ∀ c, measClass m (upd MCal.sig v c) = measClass m c := by
+    intro c
+    unfold upd
+    by_cases hs : MCal.sig c = MCal.sig v
+    · simp only [hs, if_true]
+      simp only [MCal.sig, Prod.mk.injEq] at hs
+      obtain ⟨hn, hq, ht⟩ := hs
+      simp [measClass, hn, hq, ht]
+    · simp [hs]
+  have hfi : ∀ b, fi m b (cs.map (upd MCal.sig v)).zipIdx.reverse = fi m b cs.zipIdx.reverse := by
+    intro b
+    unfold fi
+    rw [List.zipIdx_map, ← List.map_reverse, List.find?_map]
+    simp only [Option.map_map]
+    have : ((fun p : MCal × Nat => measClass m p.1 == some b) ∘ Prod.map (upd MCal.sig v) id)
+        = (fun p : MCal × Nat => measClass m p.1 == some b) := by
+      funext p; simp [hcl]
+    rw [this]
+    cases List.find? (fun p : MCal × Nat => measClass m p.1 == some b) cs.zipIdx.reverse <;> simp
+  unfold getMatchForMeasurement
+  simp only [measScan_eq, Option.none_or, hfi]
+
 /-- the invariant and the insertion specification for the two concrete sets of `Calibrations` -/
 theorem calibrations_history (ops : List (Op Cal _)) (mops : List (Op MCal _)) :
     NoDupSig Cal.sig (run Cal.sig [] ops) ∧ NoDupSig MCal.sig (run MCal.sig [] mops) :=
